@@ -141,10 +141,13 @@ class IRGen:
     # -- values -----------------------------------------------------------
     def v_str(self, name):
         r = self.r
-        kinds = ["plain", "path", "space"]
+        kinds = ["plain", "path", "space", "numeric"]
         if self.k.hostile_strings:
             kinds += ["dot", "empty", "inner_quote"]
         kind = r.choice(kinds)
+        if kind == "numeric":
+            # a string that reads like a number or a boolean
+            return r.choice(["5", "-3", "0.5", "True", "1e3"]), "str_numeric"
         if kind == "plain":
             return "val_{}".format(name), "str_plain"
         if kind == "path":
@@ -553,6 +556,8 @@ def _default_class_of(p):
             return "code_arith"
         if v == "":
             return "str_empty"
+        if v in ("5", "-3", "0.5", "True", "1e3"):
+            return "str_numeric"
         if v.startswith("(") and v.endswith(")"):
             return "paren_tuple"
         if "." in v and not v.startswith("~"):
